@@ -55,6 +55,10 @@ impl<'a> Scenario for OneShot<'a> {
     fn focus(&self) -> Focus {
         self.focus.clone()
     }
+    fn invariants(&self) -> Vec<&'static str> {
+        // the representation invariants of the channel/user relation hold after every scripted line
+        vec!["membership-symmetry", "dangling-member", "rank-set", "empty-channel"]
+    }
 }
 
 /// Execute a script on a fresh world and judge its last line. Returns findings
@@ -184,9 +188,9 @@ pub fn c01_focus() -> Focus {
 pub fn c01_scn(name: &str, full: bool) -> ChatScn {
     let mut s = ChatScn::new(name, Cfg::default(), vec![part(0, "alice", "alicia", "au"), part(1, "bob", "bobby", "bu"), part(2, "carol", "caro", "cu"), part(3, "dave", "davy", "du")], 0);
     let churn: Vec<&'static str> = if full {
-        vec!["JOIN #x", "JOIN #y", "PART #x", "KICK #x {peer}", "NICK {alt}", "MODE #x +v {peer}", "MODE #x +h {peer}", "MODE #x +o {peer}", "MODE #x -o {peer}", "MODE #x +q {peer}", "QUIT"]
+        vec!["JOIN #x", "JOIN #y", "PART #x", "KICK #x {peer}", "NICK {alt}", "NICK {peer}", "MODE #x +v {peer}", "MODE #x +h {peer}", "MODE #x +o {peer}", "MODE #x -o {peer}", "MODE #x +q {peer}", "QUIT"]
     } else {
-        vec!["JOIN #x", "JOIN #y", "PART #x", "KICK #x {peer}", "NICK {alt}", "MODE #x +v {peer}", "MODE #x +o {peer}", "QUIT"]
+        vec!["JOIN #x", "JOIN #y", "PART #x", "KICK #x {peer}", "NICK {alt}", "NICK {peer}", "MODE #x +v {peer}", "MODE #x +o {peer}", "QUIT"]
     };
     for slot in 0..3 {
         for t in &churn {
@@ -227,9 +231,9 @@ pub fn c01_ghost(full: bool) -> ChatScn {
 pub fn c10_scn(name: &str, full: bool) -> ChatScn {
     let mut s = ChatScn::new(name, Cfg::default(), vec![part(0, "alice", "alicia", "au"), part(1, "bob", "bobby", "bu"), part(2, "carol", "caro", "cu")], 0);
     s.prelude = vec![(0, "JOIN #c".into()), (2, "JOIN #c".into())];
-    let mut a: Vec<&'static str> = vec!["MODE #c +n", "MODE #c -n", "MODE #c +m", "MODE #c -m", "MODE #c +b bob!*@*", "MODE #c -b bob!*@*", "MODE #c +e bob!*@*", "MODE #c +v bob", "MODE #c -v bob"];
+    let mut a: Vec<&'static str> = vec!["MODE #c +n", "MODE #c -n", "MODE #c +m", "MODE #c -m", "MODE #c +b bob!*@*", "MODE #c -b bob!*@*", "MODE #c +e bob!*@*", "MODE #c -e bob!*@*", "MODE #c +e zed!*@*", "MODE #c +v bob", "MODE #c -v bob"];
     if full {
-        a.extend(["MODE #c +s", "MODE #c -s", "MODE #c -e bob!*@*", "MODE #c +b *!*@127.0.0.1", "MODE #c +h bob", "MODE #c +e *!~bu@*"]);
+        a.extend(["MODE #c +s", "MODE #c -s", "MODE #c -e zed!*@*", "MODE #c +b *!*@127.0.0.1", "MODE #c +h bob", "MODE #c +e *!~bu@*"]);
     }
     for t in a {
         s.alphabet_for.push((0, t));
@@ -278,9 +282,9 @@ pub fn c07_scn(name: &str, full: bool) -> ChatScn {
     cfg.max_joins = Some(2);
     let mut s = ChatScn::new(name, cfg, vec![part(0, "alice", "alicia", "au"), part(1, "bob", "bobby", "bu")], 0);
     s.prelude = vec![(0, "JOIN #c".into())];
-    let mut a: Vec<&'static str> = vec!["MODE #c +i", "MODE #c -i", "MODE #c +k k", "MODE #c +k j", "MODE #c -k", "MODE #c +b bob!*@*", "MODE #c -b bob!*@*", "MODE #c +e bob!*@*", "MODE #c -e bob!*@*", "MODE #c +e zed!*@*", "MODE #c +I bob!*@*", "MODE #c -I bob", "MODE #c +l 1", "MODE #c +l 2", "MODE #c -l", "INVITE {peer} #c"];
+    let mut a: Vec<&'static str> = vec!["MODE #c +i", "MODE #c -i", "MODE #c +k k", "MODE #c +k j", "MODE #c -k", "MODE #c +b bob!*@*", "MODE #c -b bob!*@*", "MODE #c +e bob!*@*", "MODE #c -e bob!*@*", "MODE #c +e zed!*@*", "MODE #c +I bob!*@*", "MODE #c -I bob", "MODE #c +l 1", "MODE #c +l 2", "MODE #c -l", "INVITE {peer} #c", "KICK #c {peer}"];
     if full {
-        a.extend(["MODE #c +b *!*@127.0.0.1", "MODE #c -I bob!*@*", "MODE #c +I zed", "MODE #c +b bobby", "KICK #c {peer}"]);
+        a.extend(["MODE #c +b *!*@127.0.0.1", "MODE #c -I bob!*@*", "MODE #c +I zed", "MODE #c +b bobby"]);
     }
     for t in a {
         s.alphabet_for.push((0, t));
@@ -289,6 +293,8 @@ pub fn c07_scn(name: &str, full: bool) -> ChatScn {
         s.alphabet_for.push((1, t));
     }
     s.focus = c07_focus();
+    // the quota counts the channels the user is really in: both sides of the membership relation agree
+    s.invariants = vec!["membership-symmetry", "dangling-member"];
     s.spec_skip = Some(Box::new(|a| !matches!(a, Act::Send(_, l) if l.starts_with("JOIN") || l.starts_with("MODE") || l.starts_with("INVITE") || l.starts_with("KICK") || l.starts_with("PART"))));
     s.probes_for = vec![(0, "NAMES #c")];
     s.probe_focus = Some(Focus { cats: vec![], relays: false, relay_verbs: None, actor: true, actor_codes: Some(vec!["353", "366"]), closes: false });
@@ -410,7 +416,7 @@ pub fn c08_scn(name: &str, full: bool) -> ChatScn {
         "MODE #c +k x", "MODE #c -k", "MODE #c +b dave!*@*", "MODE #c +o-v {peer} {peer}",
     ];
     if full {
-        a.extend(["MODE #c -h {peer}", "MODE #c -a {peer}", "MODE #c +q {peer}", "MODE #c -i", "MODE #c -t", "MODE #c +n", "MODE #c +s", "MODE #c +l 2", "MODE #c -l", "MODE #c -b dave!*@*", "MODE #c +e dave", "MODE #c +I dave", "MODE #c +im", "MODE #c +tn-s", "MODE #c +m-i", "MODE #c -t+n", "MODE #c +s-k", "MODE #c -l+m", "MODE #c -o+o {peer} {peer}", "MODE #c +ov {peer} {peer}", "MODE #c +b"]);
+        a.extend(["MODE #c -h {peer}", "MODE #c -a {peer}", "MODE #c +q {peer}", "MODE #c -i", "MODE #c -t", "MODE #c +n", "MODE #c +s", "MODE #c +l 2", "MODE #c -l", "MODE #c -b dave!*@*", "MODE #c +e dave", "MODE #c +I dave", "MODE #c +im", "MODE #c +tn-s", "MODE #c +m-i", "MODE #c -t+n", "MODE #c +s-k", "MODE #c -l+m", "MODE #c +k y", "MODE #c +l 7", "MODE #c -o+o {peer} {peer}", "MODE #c +ov {peer} {peer}", "MODE #c +b"]);
     }
     for slot in 0..3 {
         for t in &a {
@@ -528,7 +534,7 @@ pub fn c08_matrix(full: bool) -> Vec<Script> {
         let none: Vec<&str> = vec![];
         for l in [
             "MODE #c +i", "MODE #c -i", "MODE #c +m", "MODE #c -m", "MODE #c +t", "MODE #c -t", "MODE #c +n", "MODE #c -n", "MODE #c +s", "MODE #c -s", "MODE #c +k x", "MODE #c -k", "MODE #c +l 2", "MODE #c -l", "MODE #c +b m", "MODE #c -b m",
-            "MODE #c +e m", "MODE #c -e m", "MODE #c +I m", "MODE #c -I m", "MODE #c +im", "MODE #c +tn-s", "MODE #c +m-i", "MODE #c -t+n", "MODE #c +s-k", "MODE #c -l+m", "MODE #c +b", "MODE #c +kl x 3", "MODE #c +o ghost", "MODE #c -v bob", "MODE #c -o bob", "MODE #c -q bob", "MODE #c +b m!u", "MODE #c +e n@h",
+            "MODE #c +e m", "MODE #c -e m", "MODE #c +I m", "MODE #c -I m", "MODE #c +im", "MODE #c +tn-s", "MODE #c +m-i", "MODE #c -t+n", "MODE #c +s-k", "MODE #c -l+m", "MODE #c +k y", "MODE #c +l 7", "MODE #c +b", "MODE #c +kl x 3", "MODE #c +o ghost", "MODE #c -v bob", "MODE #c -o bob", "MODE #c -q bob", "MODE #c +b m!u", "MODE #c +e n@h",
         ] {
             let mut p = base(&none);
             // give the "minus" forms something to remove
@@ -930,6 +936,10 @@ pub fn c16_lattice_case(bits: u32) -> Vec<Finding> {
         }
     };
     check_settings(&w, "at start-up", &mut out);
+    // nobody has joined yet: nobody holds a rank yet (the configured lists only say who *will*)
+    for (name, msg) in crate::spec::rep_invariants(&w.snapshot()) {
+        out.push(finding("lattice:invariant", format!("at start-up (bits {:#x}): {}: {}", bits, name, msg)));
+    }
     m!(w.register(0, "lis", "lu"));
     m!(w.register(1, "other", "ou"));
     m!(w.register(2, "boss", "bu"));
@@ -955,6 +965,23 @@ pub fn c16_lattice_case(bits: u32) -> Vec<Finding> {
         }
     } else if joined.is_some() {
         out.push(finding("lattice:admission", format!("listed nick entered invite-only #p without invitation (bits {:#x})", bits)));
+    }
+    // the configured mask lists are what a member is shown by the list queries
+    if lis_admitted && joined.is_some() {
+        for (letter, code, masks) in [("b", " 367 ", &ch.ban), ("e", " 348 ", &ch.exception), ("I", " 346 ", &ch.invite_exception)] {
+            w.take_all();
+            m!(w.send(0, &format!("MODE #p +{}", letter)));
+            let ls = w.take_lines(0);
+            let shown: Vec<&String> = ls.iter().filter(|l| l.contains(code)).collect();
+            for mk in masks.iter() {
+                if !shown.iter().any(|l| l.split(' ').any(|t| t == mk)) {
+                    out.push(finding("lattice:lists", format!("MODE #p +{} does not list the configured mask {:?} (bits {:#x}): {:?}", letter, mk, bits, ls)));
+                }
+            }
+            if shown.len() != masks.len() {
+                out.push(finding("lattice:lists", format!("MODE #p +{} lists {} entries, configured {} (bits {:#x}): {:?}", letter, shown.len(), masks.len(), bits, ls)));
+            }
+        }
     }
     // other nick joins: no ranks
     let other_admitted = !on(11);
